@@ -847,7 +847,7 @@ struct C01 : World {
       Op o; o.task = task;
       int k = (int)r.below(100);
       int slot = (int)r.below(3);
-      if (cb) k = k % 40;
+      if (cb) k = r.chance(1, 8) ? 92 + (int)r.below(3) : k % 40;  // from a callback: the re-entrant subset, and (un)registering handlers (documented as safe; the order clauses are C11's)
       if (k < 22) { o.kind = "fetch"; o.a = {slot, vpgno(), vsub(), (int64_t)r.below(4), r.chance(2, 3) ? 25 : (int64_t)r.below(28), (int64_t)r.below(2)}; }
       else if (k < 27) { o.kind = "fetch_cc"; o.a = {slot, r.chance(7, 8) ? 1 + (int64_t)r.below(8) : (int64_t)r.below(14) - 3, (int64_t)r.below(2)}; }
       else if (k < 31) { o.kind = "classify"; o.a = {r.chance(1, 4) ? (int64_t)r.below(12) : vpgno()}; }
@@ -969,8 +969,8 @@ struct C01 : World {
       { SutScope ss; r = vbi_cache_hi_subno(s.dec, pgno); }
       end();
       c.log("%shisub %x -> %x", cb ? "cb " : "", pgno, r);
-    } else if (cb) {
-      return;  // everything below is not in the re-entrant subset
+    } else if (cb && k != "handler") {
+      return;  // everything below is not in the re-entrant subset (except handler (un)registration)
     } else if (k == "export") {
       if (!s.slot_valid[sl] || !refresh(sl)) return;
       vbi_page* pg = s.slot[sl];
